@@ -170,7 +170,7 @@ def run_tlc(module, cfg, *, workdir, workers=NCPU, timeout=1800, env=None, simul
             coverage=False, deadlock=False, extra=(), jvm=(), heap="6g"):
     """Run TLC on spec module `module` (path to .tla) with config `cfg` (path). Returns TLCResult."""
     meta = tempfile.mkdtemp(prefix="meta", dir=workdir)
-    cmd = ["java", "-XX:+UseParallelGC", "-Xss64m", "-Xmx" + heap, "-DTLA-Library=" + SPEC + os.pathsep + os.path.join(SPEC, "mc")
+    cmd = ["java", "-Djava.io.tmpdir=" + workdir, "-XX:+UseParallelGC", "-Xss64m", "-Xmx" + heap, "-DTLA-Library=" + SPEC + os.pathsep + os.path.join(SPEC, "mc")
            + os.pathsep + os.path.join(SPEC, "trace"), *jvm,
            "-cp", TLA_CP, "tlc2.TLC", "-metadir", meta, "-noGenerateSpecTE", "-config", cfg, "-workers", str(workers)]
     if not deadlock:
